@@ -37,6 +37,8 @@ def _alarm(signum, frame):
 signal.signal(signal.SIGALRM, _alarm)
 
 OPS = {}
+WARM = {}
+NO_WARMUP = {"graph_hist", "winnable_hist"}      # operations that mutate the graph themselves
 
 
 def op(name):
@@ -74,7 +76,20 @@ class Ctx:
         return [(self.name(a), self.name(b), k) for a, b, k in es]
 
     def graph(self, scn):
-        return CFGraph(self.vlist(scn), self.edges(scn["edges"]))
+        """the scenario's graph.  With `warmup: k` the scenario is run twice on ONE graph object:
+        first built from the first k edges (result discarded), then the remaining edges are
+        inserted with add_edges and the operation is asked again - whatever the library cached
+        per graph object during the first run must not leak into the second"""
+        k = scn.get("warmup")
+        if k is None or WARM.get("phase") is None:
+            return CFGraph(self.vlist(scn), self.edges(scn["edges"]))
+        if WARM["phase"] == 1:
+            G = CFGraph(self.vlist(scn), self.edges(scn["edges"][:k]))
+            WARM["G"] = G
+            return G
+        G = WARM["G"]
+        G.add_edges(self.edges(scn["edges"][k:]))
+        return G
 
     def divisor(self, G, degs, order=None):
         pairs = [(self.names[i], degs[i]) for i in (order if order is not None else range(self.n))]
@@ -776,6 +791,25 @@ def op_kn_parking(scn):
     return {"agree": agree, "superstables": ns, "parking": npk}
 
 
+
+@op("winnable_hist")
+def op_winnable_hist(scn):
+    c = Ctx(scn)
+    ok, G = call(c.graph, scn)
+    if not ok:
+        return "ERR"
+
+    def verdicts():
+        ok1, a = call(algo.is_winnable, c.divisor(G, scn["deg"]))
+        ok2, b = call(lambda: algo.EWD(G, c.divisor(G, scn["deg"]))[0])
+        return [a if ok1 else "ERR", b if ok2 else "ERR"]
+    outs = [verdicts()]
+    for a, b, k in scn.get("adds", []):
+        call(G.add_edge, c.name(a), c.name(b), k)
+        outs.append(verdicts())
+    return {"verdicts": outs, "graph": c.gdigest(G)}
+
+
 # ----------------------------------------------------------------------------- main loop
 
 def _jsondefault(o):
@@ -802,10 +836,26 @@ def run_one(scn):
     signal.alarm(limit)
     try:
         with contextlib.redirect_stdout(io.StringIO()):
+            WARM.clear()
+            if scn.get("warmup") is not None and scn["op"] not in NO_WARMUP:
+                WARM["phase"] = 1
+                try:
+                    signal.alarm(3)
+                    f(scn)
+                except Timeout:
+                    pass
+                except Exception:
+                    pass
+                signal.alarm(limit)
+                if "G" not in WARM:
+                    WARM.clear()
+                else:
+                    WARM["phase"] = 2
             return f(scn)
     except Timeout:
         return "TIMEOUT"
     finally:
+        WARM.clear()
         signal.alarm(0)
 
 
@@ -819,8 +869,11 @@ def main():
             scn = json.loads(line)
             try:
                 res = run_one(scn)
-            except Exception as e:  # harness bug, not an observation
-                res = {"bad": f"{type(e).__name__}: {e}"}
+            except Exception as e:
+                # the observation code itself failed: on the unchanged tree this never happens, so it
+                # is reported as an observation (the library left an object in a state that cannot
+                # even be inspected), not as an infrastructure error
+                res = {"observation_failed": type(e).__name__}
             fo.write(json.dumps(res, default=_jsondefault) + "\n")
             fo.flush()
 
